@@ -95,11 +95,19 @@ def case_gr(ctx, rng):
     Acall = represent(A, N + int(10 * w * 1000))
     if rng.random() < 0.3:
         # history: the SAME snapshot object analysed immediately before with the same bin width and ANOTHER periodicity mask (slab vs bulk)
-        other = ppp.copy()
-        ax = int(rng.integers(0, d))
-        other[ax] = 1 - other[ax]
-        ctx.call(key + "/prior_call_other_mask", conditional_gr, s, Acall, ctype, other, w, data=info)
-        ctx.count("prior_call_other_mask")
+        if rng.random() < 0.5:
+            other = ppp.copy()
+            ax = int(rng.integers(0, d))
+            other[ax] = 1 - other[ax]
+            ctx.call(key + "/prior_call_other_mask", conditional_gr, s, Acall, ctype, other, w, data=info)
+            ctx.count("prior_call_other_mask")
+        else:
+            # ... or with the same mask and ANOTHER bin width that happens to give the same number of bins (a scan over widths)
+            nb_ = int(Lmin / 2.0 / w)
+            w2 = Lmin / 2.0 / (nb_ + float(rng.uniform(0.15, 0.85)))
+            if abs(w2 - w) > 1e-6 * w and int(Lmin / 2.0 / w2) == nb_:
+                ctx.call(key + "/prior_call_other_width", conditional_gr, s, Acall, ctype, ppp, w2, data=info)
+                ctx.count("prior_call_other_width_same_bins")
     ok, res = ctx.call(key, conditional_gr, s, Acall, ctype, ppp, w, data=info)
     if ok and rng.random() < 0.35:
         # history: the caller keeps its arrays and calls again -- the second answer must be the same table
